@@ -430,9 +430,14 @@ func replayTarget() string {
 }
 
 func run(c *mc.Ctx) {
-	if m := strobe.VerifMissing() + merlin.VerifMissing(); m != "" {
-		stateHook = false
-		c.Cap("the STROBE state can no longer be read from this tree (" + m + "): state comparisons skipped, every output is still compared with the reference")
+	if m := strings.Trim(strobe.VerifMissing()+","+merlin.VerifMissing(), ","); m != "" {
+		for _, f := range strings.Split(m, ",") {
+			missingField[f] = true
+		}
+		if missingField["st"] || missingField["Transcript.s"] {
+			stateHook = false
+		}
+		c.Cap("STROBE state components that can no longer be read from this tree: " + m + " (their comparison is skipped; every output and every readable component is still compared with the reference)")
 	}
 	if pf := os.Getenv("VERIF_CPUPROFILE"); pf != "" { // developer aid only
 		if f, err := os.Create(pf); err == nil {
